@@ -478,6 +478,20 @@ def check_object(o, d, mon, label):
                         "placeholders %s, values %r, caller's list has %d entries; %r" % (marks[:8], [repr(x)[:20] for x in v4][:8], len(mine.values), s4[:240]), None)
         except Exception as e:
             return ("raises:%s" % type(e).__name__, "get_parameterized_sql with a caller-supplied Parameterizer raised %r" % e, None)
+    if isinstance(o, reg["QueryBuilder"]):
+        # a caller's context of ANOTHER dialect, without a parameterizer: get_parameterized_sql keeps the context and adds a parameterizer
+        other = "MySQLQuery" if d != "MySQLQuery" else "PostgreSQLQuery"
+        octx = contexts()[other].copy(as_keyword=True)
+        try:
+            s5, v5 = o.get_parameterized_sql(octx)
+            pz5 = reg["Parameterizer"]()
+            s6 = o.get_sql(octx.copy(parameterizer=pz5))
+            mon.count("foreign_context_parameterized_checks")
+            if s5 != s6 or [repr(x) for x in v5] != [repr(x) for x in pz5.values]:
+                return ("caller-context-ignored", "get_parameterized_sql(ctx) with %s's context (no parameterizer, as_keyword=True) renders %r; get_sql with the same context "
+                        "and a parameterizer renders %r" % (other, s5[:200], s6[:200]), None)
+        except Exception:
+            mon.count("foreign_context_render_raises")
     if isinstance(o, reg["QueryBuilder"]):  # (hasattr would be answered by __getattr__ with a Field)
         try:
             s2, v2 = o.get_parameterized_sql(ctx)
